@@ -87,7 +87,7 @@ func TokString(ts []Tok) string {
 
 // TokDiff describes how a produced token sequence differs from the source's.
 type TokDiff struct {
-	Kind  string // "glued", "split", "dropped", "inserted", "changed"
+	Kind  string // "glued", "split", "truncated", "extended", "dropped", "inserted", "changed"
 	Class string // class suffix derived from the construct (no property prefix)
 	At    int    // index of the first difference in the source sequence
 	Run   []Tok  // the dropped / inserted tokens
@@ -202,6 +202,22 @@ func DiffToks(src, out []Tok) *TokDiff {
 	if i < len(src) && i < len(out) {
 		a, b := src[i], out[i]
 		switch {
+		case a.Type == b.Type && i+1 < len(src) && src[i+1].Bytes == "" && len(b.Bytes) > len(a.Bytes) && strings.HasPrefix(b.Bytes, a.Bytes):
+			// the token that follows in the source has no bytes (end of file):
+			// nothing was glued on, the token itself grew (for example a
+			// final line comment that acquired a line ending)
+			d.Kind = "extended"
+			d.Class = TokName(a.Type) + "-bytes-appended." + bytesKind(b.Bytes[len(a.Bytes):]) + ".before-" + TokName(src[i+1].Type)
+			d.Msg = fmt.Sprintf("source token %s has the additional bytes %q in the output; %s", TokString(src[i:i+1]), b.Bytes[len(a.Bytes):], ctx())
+			return d
+		case a.Type == b.Type && len(b.Bytes) < len(a.Bytes) && strings.HasPrefix(a.Bytes, b.Bytes) && !continuesWith(out[i+1:], a.Bytes[len(b.Bytes):]):
+			// the output token is a proper prefix of the source token and the
+			// rest is not in the tokens that follow: the end of the token was
+			// cut off (for example the blanks at the end of a line comment)
+			d.Kind = "truncated"
+			d.Class = TokName(a.Type) + "-truncated." + bytesKind(a.Bytes[len(b.Bytes):]) + "-dropped"
+			d.Msg = fmt.Sprintf("source token %s lost its last bytes %q in the output (%s); %s", TokString(src[i:i+1]), a.Bytes[len(b.Bytes):], TokString(out[i:i+1]), ctx())
+			return d
 		case a.Type == b.Type && i+1 < len(src) && len(b.Bytes) > len(a.Bytes) && strings.HasPrefix(b.Bytes, a.Bytes+src[i+1].Bytes):
 			// two source tokens that were separated by spacing now scan as one
 			d.Kind = "glued"
@@ -233,6 +249,38 @@ func DiffToks(src, out []Tok) *TokDiff {
 	d.Class = "token-count-changed"
 	d.Msg = fmt.Sprintf("token sequences have different lengths (%d vs %d); %s", len(src), len(out), ctx())
 	return d
+}
+
+// continuesWith reports whether the bytes of the tokens ts, written one after
+// the other, start with rest.
+func continuesWith(ts []Tok, rest string) bool {
+	for _, t := range ts {
+		if rest == "" {
+			return true
+		}
+		n := len(t.Bytes)
+		if n > len(rest) {
+			n = len(rest)
+		}
+		if t.Bytes[:n] != rest[:n] {
+			return false
+		}
+		rest = rest[n:]
+	}
+	return rest == ""
+}
+
+// bytesKind names a run of bytes cut from / added to the end of a token.
+func bytesKind(s string) string {
+	switch {
+	case strings.Trim(s, " \t") == "":
+		return "trailing-blanks"
+	case strings.Trim(s, "\r\n") == "":
+		return "line-ending"
+	case strings.Trim(s, " \t\r\n") == "":
+		return "trailing-blanks-and-line-ending"
+	}
+	return "trailing-bytes"
 }
 
 func diffRun(src, out []Tok, i, w int, d *TokDiff, ctx func() string) *TokDiff {
